@@ -129,9 +129,11 @@ func verifC14Zone() {
 					m.Answer = append(m.Answer,
 						dns.RR{Name: origin, Type: 65, Class: 1, TTL: 60, Data: dns.HTTPS{Priority: 2, Target: "svc.example", ECH: []byte{2}}},
 						dns.RR{Name: origin, Type: 65, Class: 1, TTL: 60, Data: dns.HTTPS{Priority: 1, ECH: []byte{1}}})
-				case 2: // poisoned: a record for an unrelated owner name
+				case 2: // poisoned: records for unrelated owner names, one behind an off-chain CNAME
 					m.Answer = append(m.Answer,
 						dns.RR{Name: "evil.example", Type: 65, Class: 1, TTL: 60, Data: dns.HTTPS{Priority: 1, ECH: []byte{0xEE}}},
+						dns.RR{Name: "evil.example", Type: 5, Class: 1, TTL: 60, Data: "evil2.example"},
+						dns.RR{Name: "evil2.example", Type: 65, Class: 1, TTL: 60, Data: dns.HTTPS{Priority: 1, ECH: []byte{0xEE}}},
 						dns.RR{Name: origin, Type: 65, Class: 1, TTL: 60, Data: dns.HTTPS{Priority: 1, ECH: []byte{1}}})
 				}
 			case "alias1.example":
@@ -147,6 +149,11 @@ func verifC14Zone() {
 			}
 		case 1:
 			m.Answer = append(m.Answer, dns.RR{Name: "evil.example", Type: 1, Class: 1, TTL: 60, Data: vMarkerIP})
+			if vBool() {
+				// a CNAME that is not owned by the queried name must not redirect the chain
+				m.Answer = append(m.Answer, dns.RR{Name: "evil.example", Type: 5, Class: 1, TTL: 60, Data: "evil2.example"},
+					dns.RR{Name: "evil2.example", Type: 1, Class: 1, TTL: 60, Data: vMarkerIP})
+			}
 			if vBool() {
 				// through an in-answer CNAME
 				m.Answer = append(m.Answer, dns.RR{Name: q.name, Type: 5, Class: 1, TTL: 60, Data: "c." + q.name},
